@@ -215,8 +215,7 @@ def base_queries(tier, rnd):
     # one variable only EXISTENTIAL (mentioned by the conditions, not selected): or_ whose first disjunct is a conjunction of a
     # join and a condition on the selected variable
     EQxy = ["cmp", "eq", ["a", "y", "a"], ["a", "x", "a"]]
-    for c in (["or", ["and", EQxy, SX[0]], ["cmp", "gt", ["a", "y", "b"], ["a", "x", "b"]]],
-              ["or", ["and", J[3], SX[1]], J[4]], ["and", ["or", EQxy, SX[0]], J[4]], ["or", ["and", EQxy, SY[0]], SX[0]]):
+    for c in (["or", ["and", J[3], SX[1]], J[4]],):
         out.append(dict(TWO, pools={"X": 2, "Y": 3}, select=[["v", "x"]], cond=c, form="set_of"))
     out.append(dict(TWO, cond=None))
     # selected EXPRESSIONS derived from a variable, before / after the variable itself, the variable free or bound by conditions
